@@ -268,6 +268,11 @@ class EvoGen:
             opts += ["arr-kind", "arr-inner"] * 2
         if k == "map":
             opts += ["map-key", "map-value"] * 2
+        if getattr(self, "accepted_bias", False):
+            good = [o for o in opts if o in ("prim-change", "to-optional", "from-optional", "optional-to-union", "optional-inner", "union-add", "union-remove",
+                                              "union-swap", "union-to-scalar", "union-to-optional", "to-union", "vec-inner")]
+            if good and r.random() < 0.9:
+                opts = good
         e = r.choice(opts)
         if e == "prim-change":
             if k != "prim":
@@ -369,10 +374,17 @@ class EvoGen:
         for _ in range(50):
             nv = v.copy()
             c = r.random()
-            if c < 0.5:
+            if c < (0.45 if getattr(self, "accepted_bias", False) else 0.5):
                 pos = self.positions(nv)
                 holder, key, plain, owner = r.choice(pos)
-                x = self.edit_type(nv, holder[key])
+                scope = nv
+                if owner is not None:
+                    # inside a record only earlier definitions may be mentioned (no reference cycles)
+                    scope = Version()
+                    for n in nv.order[:nv.order.index(owner)]:
+                        scope.defs[n] = nv.defs[n]
+                        scope.order.append(n)
+                x = self.edit_type(scope, holder[key])
                 if x is None:
                     continue
                 if isinstance(holder, list) and len(holder) == 3 and holder in nv.steps and holder[2] and self.cpp_safe and x[1] == ["prim", "bool"]:
@@ -381,7 +393,7 @@ class EvoGen:
                 holder[key] = x[1]
                 self.last = {"plain": plain, "old": old_t, "new": x[1], "in_record": owner}
                 return "type:" + x[0], nv
-            if c < 0.8:
+            if c < (0.9 if getattr(self, "accepted_bias", False) else 0.8):
                 recs = [n for n in nv.order if nv.defs[n][0] == "rec"]
                 enums = [n for n in nv.order if nv.defs[n][0] == "enum"]
                 if recs and (not enums or r.random() < 0.7):
@@ -412,6 +424,8 @@ class EvoGen:
                 if enums:
                     d = nv.defs[r.choice(enums)]
                     e = r.choice(["enum-add-value", "enum-remove-value", "enum-change-value", "enum-base", "enum-flags-toggle"])
+                    if getattr(self, "accepted_bias", False) and r.random() < 0.9:
+                        e = "enum-add-value"
                     if e == "enum-add-value":
                         mx = max(x for _, x in d[3])
                         d[3].append([self.fresh("n"), (mx * 2 if mx > 0 else 1) if d[2] else mx + 1])
@@ -432,6 +446,8 @@ class EvoGen:
                     return "enum:" + e, nv
                 continue
             e = r.choice(["step-add-empty-able", "step-add-required", "step-remove", "step-swap", "step-stream-toggle"])
+            if getattr(self, "accepted_bias", False) and r.random() < 0.9:
+                e = "step-add-empty-able"
             if e == "step-add-empty-able":
                 t = r.choice([["opt", self.prim()], ["vec", self.elem(nv), None], ["map", ["prim", "string"], self.elem(nv)], self.elem(nv)])
                 stream = t[0] in ("prim", "ref")
